@@ -35,6 +35,7 @@ def run(ck, tier):
     ck.rule("R-C06-id", "WordId::from_word_chars hashes to_lower(normalized(chars)); WordMap::insert derives the id from the entry's own canonical_spelling; MutableDictionary::contains_exact_word normalises its argument and compares with canonical_spelling")
     ck.rule("R-C06-accept", "in SpellCheck::lint a word is skipped only on paths through the true edge of the dialect predicate and of contains_exact_word(word) or contains_exact_word(to_lower(word)) for that same word; every other path pushes a lint whose span is the word token's span")
     ck.rule("R-C06-dialect", "in cached_suggest_correct_spelling both the list stored in the memo and every returned list are dialect-filtered: retained in place (retain on every path from the fuzzy search) or derived from filter(..), with a predicate that looks up the entry's metadata and compares .dialect with the configured dialect; a cache hit returns what was stored; the lint's suggestions derive from that function")
+    ck.rule("R-C06-glue", "pattern constants vs. word list: a word that a Document pass glues a following period onto (WordSet literals of the Latin-abbreviation pattern, matched in any capitalisation) is listed in dictionary.dict in lower case together with the period - otherwise the listed bare word, written directly before a full stop, becomes a token the dictionary does not list in that spelling and is reported")
     ck.rule("R-C06-exact", "the exact-spelling test compares like with like: the character normalisation (typographic apostrophes -> ') applied to the queried word in MutableDictionary::contains_exact_word is applied to the stored spelling as well - at the comparison or where entries are stored - otherwise a listed word written with a typographic apostrophe can never match its own entry and is reported as misspelt")
     ck.not_decided += ["membership of concrete words (the affix expansion of the 130k-word list is data)", "capitalisation variants accepted by to_lower", "what the fuzzy search returns"]
     p = facts.load()
@@ -50,6 +51,7 @@ def run(ck, tier):
     c15.add_always(ck, p, "R-C06-union")
     like_with_like(ck, p, byk, "R-C06-exact")
     dialect_first_wins(ck, p, byk, "R-C06-union")
+    _glued(ck, p, byk)
 
 
 def _id(ck, p, byk):
@@ -451,3 +453,65 @@ def dialect_first_wins(ck, p, byk, rule):
         ck.proved(rule, key, f.span, "first part's entry is returned, but the spell checker does not test its dialect")
     else:
         ck.undecided(rule, key, f.span, "get_word_metadata does not return the first part's entry; how it combines the parts' dialects is not decided")
+
+
+def _glued(ck, p, byk):
+    import os
+    from ..facts import REPO
+    rule = "R-C06-glue"
+    fs = byk.get("Document::uncached_latin_pattern")
+    if not ck.anchor(rule, "Document::uncached_latin_pattern", fs):
+        return
+    f = fs[0]
+    ck.saw(f)
+    has_period = any(method(t) == "then_period" for _, t in f.calls())
+    words = set()
+
+    def strs(obj):
+        if isinstance(obj, dict):
+            c = obj.get("const")
+            if isinstance(c, str) and re.match(r'^".*"$', c, re.S):
+                words.add(c[1:-1])
+            for v in obj.values():
+                strs(v)
+        elif isinstance(obj, list):
+            for v in obj:
+                strs(v)
+    # the literals handed to WordSet::new (arrays of &str live in the function's promoted constants)
+    ws = [(bi, t) for bi, t in f.calls() if norm(inst_of(t)).endswith("word_set::{impl}::new")]
+    for h in p.fns.values():
+        if re.sub(r"::promoted\[\d+\]$", "", h.name) == f.name and h.name != f.name:
+            # only promoteds that hold an array of string literals
+            if any(sx["k"] == "assign" and sx["rv"]["k"] == "agg" and sx["rv"].get("agg") == "array" for b in h.blocks for sx in b["s"]):
+                strs(h.d.get("blocks", []))
+    for bi, t in ws:
+        strs(t["args"])
+    if not ws or not has_period:
+        ck.proved(rule, "Document::uncached_latin_pattern:word-set", f.span, "no WordSet followed by a period in the pattern")
+        return
+    if not ck.anchor(rule, "string literals of the WordSet in uncached_latin_pattern", sorted(words)):
+        return
+    path = os.path.join(REPO, "harper-core", "dictionary.dict")
+    entries = set()
+    try:
+        with open(path, encoding="utf-8") as fh:
+            for line in fh:
+                w = re.split(r"[/\s#]", line.strip(), 1)[0]
+                if w:
+                    entries.add(w)
+    except OSError:
+        ck.undecided(rule, "Document::uncached_latin_pattern:word-set", f.span, "dictionary.dict not readable")
+        return
+    ck.floor(rule, "entries read from dictionary.dict", len(entries), 10000)
+    bad = []
+    for w in sorted(words):
+        lw = w.lower()
+        if lw + "." in entries:
+            continue
+        if lw in entries or any(x in entries for x in (lw.capitalize(),)) and lw in entries:
+            bad.append(w)
+    key = "Document::uncached_latin_pattern:word-set"
+    if bad:
+        ck.refuted(rule, key, f.span, "the pattern glues a following period onto %s in any capitalisation, but dictionary.dict lists %s as ordinary words and has no lower-case dotted entry for them (%s): written directly before a full stop these listed words become tokens like `%s.` that match no entry in that spelling and are reported as misspelt, with a span that includes the full stop" % (sorted(words), bad, ", ".join(b.lower() + "." for b in bad), bad[0].lower()))
+    else:
+        ck.proved(rule, key, f.span, "WordSet literals %s: each has a lower-case dotted entry in dictionary.dict, or its bare form is not a listed word" % sorted(words))
